@@ -25,7 +25,8 @@ RULE = ('Generated: a small retrievable world, 1-4 fitted parameters with drawn 
         'exact ties, exact zeros}; delivered through the nestle.sample double (a real nestle.Result) or through '
         'a pymultinest double that writes the <prefix>.txt / post_separate.dat files and answers Analyzer.get_stats() '
         '(single- and multi-mode); Optimizer.fit() is run end to end.  Non-trivial = >=10 samples with '
-        'non-uniform weights and >=2 fitted parameters; distinct by case hash.')
+        'non-uniform weights and >=2 fitted parameters; distinct by case hash.'
+        ' A third of the cases first complete another fit (other sample set and size) on the same optimizer.')
 ASSUMPTIONS = [
     'weighted quantile = linear interpolation of the sorted trace against its cumulative normalised weights; inside a plateau of the cumulative weights (zero weights) any value of the plateau is accepted',
     'MAP: any sample of maximal weight, all parameters from the same sample (nestle); the MAP vector reported by the sampler statistics in fitting order (MultiNest)',
